@@ -193,7 +193,7 @@ UNIT = Unit(
         Item('collect_result', 'core/src/visitors.rs', ["impl<'a> TypeShareVisitor<'a> {", 'fn collect_result'], COLLECT,
              wrap=("impl<'a> TypeShareVisitor<'a> {\n", '\n}\n')),
         Item('sort_block', 'core/src/reconcile.rs', ['fn reconcile_aliases'], wrap=SORT_WRAP,
-             block=(A.loop_after(4), A.text('parsed_data.import_types = import_types;'))),
+             block=(A.loop_after(4), A.text('parsed_data.import_types = import_types .into_iter()'))),
     ],
     outlines={
         'o_ext1': {'decl': '''fn outlined_extend_imports(dst: &mut HashSet<ImportedType>, src: HashSet<ImportedType>)
